@@ -190,6 +190,7 @@ func init() { commands["csem"] = cmdCSem }
 func cKnobs(c *ctx, dialect string, i int, o *wgenOpts, knob *string) {
 	o.noSDot, o.noAbsI, o.noDynPtr, o.noFlbU = true, true, true, true
 	o.safeDiv = dialect == "glsl"
+	o.fround = dialect == "hlsl" // HLSL round: halfway cases to the nearest even, as WGSL
 	o.noValIdx = dialect == "msl"
 	o.noPreLet = dialect == "msl"
 	o.contCall = c.chance(0.15)
@@ -206,6 +207,8 @@ func cKnobs(c *ctx, dialect string, i int, o *wgenOpts, knob *string) {
 			o.noDynPtr = false
 		case "flbU":
 			o.noFlbU = false
+		case "fround":
+			o.fround, o.froundBoost, o.floats = true, true, true
 		case "rawDiv":
 			o.safeDiv = false
 		case "rawShift":
@@ -227,9 +230,9 @@ func cKnobs(c *ctx, dialect string, i int, o *wgenOpts, knob *string) {
 }
 
 var cRisky = map[string][]string{
-	"hlsl": {"sdot", "absI", "privInit", "vecInit", "constInit"},
-	"msl":  {"sdot", "dynPtr", "flbU", "privInit", "vecInit", "constInit", "negInit", "valIdx", "preLet"},
-	"glsl": {"rawDiv", "rawShift", "privInit", "vecInit", "constInit", "negInit"},
+	"hlsl": {"sdot", "absI", "privInit", "vecInit", "constInit", "fround"},
+	"msl":  {"sdot", "dynPtr", "flbU", "privInit", "vecInit", "constInit", "negInit", "valIdx", "preLet", "fround"},
+	"glsl": {"rawDiv", "rawShift", "privInit", "vecInit", "constInit", "negInit", "fround"},
 }
 
 // emitCFixed re-emits with the options encoded in a tag produced by emitC.
@@ -355,6 +358,13 @@ func cmdCProbeSem(c *ctx) {
 			}
 		}
 	}
+	// rounding to an integral value: exact in every language, they differ only in the direction of ties
+	for _, f := range []string{"floor", "ceil", "trunc", "round"} {
+		for _, n := range []int{1, 3} {
+			m := probeModule("f32", n, "", false, false, f)
+			c.probeCases(dialect, m, fmt.Sprintf("%s f32 x%d", f, n), roundBits, "f2r")
+		}
+	}
 	c.precedenceProbes(dialect, bnd)
 	c.constFoldProbes(dialect)
 }
@@ -445,6 +455,10 @@ var f2iBits = []uint32{0x00000000, 0x80000000, 0x3f000000, 0xbf000000, 0x3f80000
 var f2uBits = append([]uint32{0x4f000000, 0x4f000001, 0x4f7fffff}, f2iBits...)
 var f2iSatBits = []uint32{0x4f000000, 0x4f000001, 0x4f7fffff, 0x4f800000, 0x4f800001, 0x7f800000, 0x7f7fffff, 0x5f000000}
 var f2uSatBits = []uint32{0x4f800000, 0x4f800001, 0x7f800000, 0x7f7fffff, 0x5f000000}
+// operands of the rounding probes: ±0, ±0.5, ±1.5, ±2.5, ±3.5, values next to a tie, 2.4, 2.6, 2^23 - 0.5, 2^22 + 0.5, 2^23, 2^24 + 2, 1e30, ±inf
+var roundBits = []uint32{0x00000000, 0x80000000, 0x3f000000, 0xbf000000, 0x3fc00000, 0xbfc00000, 0x40200000, 0xc0200000, 0x40600000, 0xc0600000,
+	0x3effffff, 0x3f000001, 0xbeffffff, 0xbf000001, 0x4019999a, 0x40266666, 0x4affffff, 0x4a800001, 0xca800001, 0x4b000000, 0x4b800001, 0x7149f2ca, 0x7f800000, 0xff800000,
+	0x3f800000, 0xbf800000, 0x00000001, 0x80000001}
 var f2iNaNBits = []uint32{0x7fc00000, 0xffc00000, 0x7f800001, 0xff800001, 0x7fffffff}
 
 // probeModule builds the generator-AST form of `outp[0..] = bits(a OP b)` with a, b loaded from inp.
